@@ -151,3 +151,31 @@ def twodigit_students(**over):
              LecMapMode='mono', Sided={'one', 'two'}, OrderMode='asc', Stabs={False}, PCs={False})
     d.update(over)
     return fam(**d)
+
+
+def big(ns=5, np_=4, nl=3, na=3, **over):
+    """larger instances, sampled only; the quadratic LexOptimal invariant is left to the smaller families"""
+    d = dict(NA=na, NS=ns, NP=np_, NL=nl, MaxLen=4, PQ={(0, 1), (0, 2), (1, 2), (0, 4), (2, 4), (0, 5)},
+             LQ={(0, 1, 2), (0, 2, 4), (1, 3, 5), (0, 0, 3), (2, 4, 4), (0, 5, 5)}, LecMapMode='all',
+             Sided={'one', 'two', 'ignored'} if na == 2 else {'one', 'two'}, OrderMode='all', Stabs={False, True}, AllowEmpty=False)
+    d.update(over)
+    return fam(**d)
+
+
+BIG_INVARIANTS = ['FamilyWellFormed', 'ReportedValid', 'StatusIffFeasible', 'NoMatchingUnlessAllProven', 'Export']
+
+
+def four_short(**over):
+    """four students with short lists (few matchings) but second-side lists of four: tie structures that need >= 4 entries"""
+    d = dict(NA=3, NS=4, NP=2, NL=1, MaxLen=2, TieMode='all', AllowEmpty=False, PQ={(0, 1), (0, 2), (1, 3), (0, 4)},
+             LQ={(0, 2, 3), (0, 3, 4), (1, 4, 4)}, LecMapMode='mono', Sided={'two'}, OrderMode='all', Stabs={True}, PCs={False, True})
+    d.update(over)
+    return fam(**d)
+
+
+def four_long(**over):
+    """one or two students with lists of four projects, every tie structure"""
+    d = dict(NA=3, NS=2, NP=4, NL=2, MaxLen=4, TieMode='all', AllowEmpty=False, PQ={(0, 1), (0, 2)}, LQ={(0, 1, 2), (0, 2, 2)},
+             LecMapMode='mono', Sided={'one', 'two'}, OrderMode='asc', Stabs={False, True})
+    d.update(over)
+    return fam(**d)
